@@ -54,14 +54,20 @@ def compile_liquid_rules(
         rf"{tag_s}-?\s*enddoc\s*(?P<rsd>-?){tag_e}"
     )
 
-    output_pattern = rf"{stmt_s}-?\s*(?P<stmt>.*?)\s*(?P<rss>-?){stmt_e}"
+    # The lookahead makes unterminated markup fail fast. Without it, a run of
+    # whitespace after the start delimiter can be split between the optional
+    # whitespace groups in polynomially many ways before the match is abandoned.
+    output_pattern = (
+        rf"{stmt_s}(?=.*?{stmt_e})-?\s*(?P<stmt>.*?)\s*(?P<rss>-?){stmt_e}"
+    )
 
     # The "name" group is zero or more characters so that a malformed tag (one
     # with no name) does not get treated as a literal.
     #
     # The `#` in the `name` group is specifically for the inline comment tag.
     tag_pattern = (
-        rf"{tag_s}-?(?P<pre>\s*(?P<name>#|\w*)\s*)(?P<expr>.*?)\s*(?P<rst>-?){tag_e}"
+        rf"{tag_s}(?=.*?{tag_e})-?(?P<pre>\s*(?P<name>#|\w*)\s*)"
+        rf"(?P<expr>.*?)\s*(?P<rst>-?){tag_e}"
     )
 
     if not comment_start_string:
